@@ -287,6 +287,16 @@ def spec_lemmas(h):
 # native replay: the counter-model is turned into synthetic weather files and the real
 # Weather.get_ground_speed is run; the oracle is the formula of the property statement.
 
+# "the interpolated wind" is the wind at the pressure level of the point's altitude: the altitude -> pressure conversion
+# (utils/standard_atmosphere.py, one of this property's anchors) is used by its contract in the units above; that contract is
+# C12's ISA unit, and it is an obligation of this property too
+from contracts import C12 as _c12   # noqa: E402
+from pyvc.verify import UNITS as _UNITS   # noqa: E402
+for _u in list(_UNITS.get('C12', [])):
+    if _u.name == 'isa.temperature-and-pressure':
+        unit('C16', 'callee.' + _u.name, _u.func, replay=_u.replay, max_paths=_u.max_paths, timeout_ms=_u.timeout_ms)(_u.fn)
+
+
 def replay(payload, defect_oracle=False):
     import math
     import os
